@@ -40,11 +40,18 @@ class Substituter(IdentityDagWalker):
     def _push_with_children_to_stack(self, expression: FNode, **kwargs):
         """Add children to the stack."""
 
+        substitutions: Dict[FNode, FNode] = kwargs["subs"]
+        res = substitutions.get(expression, None)
+        if res is not None:
+            # The substitution is top-down: an expression that is a key is
+            # replaced as a whole, so its children must not be visited (the
+            # nodes rebuilt from them would be discarded, and rebuilding
+            # them can fail even when the final result is well-formed).
+            self.memoization[self._get_key(expression, **kwargs)] = res
         # Deal with quantifiers
-        if expression.is_exists() or expression.is_forall():
+        elif expression.is_exists() or expression.is_forall():
             # 1. We create a new substitution in which we remove the
             #    bound variables from the substitution map
-            substitutions: Dict[FNode, FNode] = kwargs["subs"]
             new_subs: Dict[Expression, Expression] = {}
             for k, v in substitutions.items():
                 # If at least one bound variable is in the cone of k,
